@@ -104,3 +104,91 @@ func VerifC18_Tamper() {
 	verif_Reach("read")
 	verif_Assert(rerr != nil && req == nil, "an altered sealed ingest request is rejected")
 }
+
+func c18hashedKey() (crypto.PrivKey, peer.ID) {
+	// an ECDSA key: its peer ID is a hash of the key and does not embed it
+	priv, pub, err := crypto.GenerateECDSAKeyPair(rand.Reader)
+	verif_Assume(err == nil)
+	id, err := peer.IDFromPublicKey(pub)
+	verif_Assume(err == nil)
+	return priv, id
+}
+
+// C18: the signer check holds for every key type, including keys whose peer ID
+// does not embed the public key.
+func VerifC18_WrongSignerHashedID() {
+	_, idA := c18hashedKey()
+	var privB crypto.PrivKey
+	var idB peer.ID
+	if verif_Bool("signerAlsoHashed") {
+		privB, idB = c18hashedKey()
+	} else {
+		privB, idB = c18key()
+	}
+	verif_Assume(idA != idB)
+	if verif_Choose("requestKind", 0, 1) == 0 {
+		data, err := MakeIngestRequest(idA, privB, verif_Bytes("multihash", 2), nil, nil, nil)
+		verif_Assert(err == nil, "sealing succeeds")
+		req, rerr := ReadIngestRequest(data)
+		verif_Reach("ingest read")
+		verif_Assert(rerr != nil && req == nil, "an ingest request naming a provider with a hashed peer ID, signed by another identity, is rejected")
+	} else {
+		data, err := MakeRegisterRequest(idA, privB, []string{"/ip4/1.2.3.4/tcp/5"})
+		verif_Assert(err == nil, "sealing succeeds")
+		rec, rerr := ReadRegisterRequest(data)
+		verif_Reach("register read")
+		verif_Assert(rerr != nil && rec == nil, "a register request naming a provider with a hashed peer ID, signed by another identity, is rejected")
+	}
+	// and the genuine provider is accepted
+	privA, idA2 := c18hashedKey()
+	data, err := MakeIngestRequest(idA2, privA, verif_Bytes("multihash2", 2), nil, nil, nil)
+	verif_Assert(err == nil, "sealing succeeds")
+	req, rerr := ReadIngestRequest(data)
+	verif_Assert(rerr == nil && req != nil && req.ProviderID == idA2, "a request signed by the provider itself (hashed peer ID) is accepted")
+}
+
+// a record sealed for the peer-record domain but with another payload type
+type c18otherRecord struct {
+	domain  string
+	codec   []byte
+	payload []byte
+}
+
+func (r *c18otherRecord) Domain() string                 { return r.domain }
+func (r *c18otherRecord) Codec() []byte                  { return r.codec }
+func (r *c18otherRecord) MarshalRecord() ([]byte, error) { return r.payload, nil }
+func (r *c18otherRecord) UnmarshalRecord(b []byte) error { r.payload = b; return nil }
+
+// C18: a validly signed envelope of the right domain but of another payload
+// type is not a register / ingest request.
+func VerifC18_WrongPayloadType() {
+	priv, id := c18key()
+	// the payload is exactly what a genuine request of that kind would carry
+	if verif_Choose("requestKind", 0, 1) == 0 {
+		rec := peer.NewPeerRecord()
+		rec.PeerID = id
+		payload, err := rec.MarshalRecord()
+		verif_Assume(err == nil)
+		codec := []byte{[]byte(peer.PeerRecordEnvelopePayloadType)[0], verif_U8("otherTypeByte")}
+		verif_Assume(!bytes.Equal(codec, peer.PeerRecordEnvelopePayloadType))
+		env, err := record.Seal(&c18otherRecord{domain: peer.PeerRecordEnvelopeDomain, codec: codec, payload: payload}, priv)
+		verif_Assume(err == nil)
+		data, err := env.Marshal()
+		verif_Assume(err == nil)
+		got, rerr := ReadRegisterRequest(data)
+		verif_Reach("register read")
+		verif_Assert(rerr != nil && got == nil, "an envelope of the peer-record domain with another payload type is not a register request")
+	} else {
+		good, err := MakeIngestRequest(id, priv, []byte{1, 2}, nil, nil, nil)
+		verif_Assume(err == nil)
+		e0, _, err := record.ConsumeEnvelope(good, IngestRequestEnvelopeDomain)
+		verif_Assume(err == nil)
+		env, err := record.Seal(&c18otherRecord{domain: IngestRequestEnvelopeDomain, codec: []byte("some-other-type"), payload: e0.RawPayload}, priv)
+		verif_Assume(err == nil)
+		data, err := env.Marshal()
+		verif_Assume(err == nil)
+		got, rerr := ReadIngestRequest(data)
+		verif_Reach("ingest read")
+		verif_Assert(rerr != nil && got == nil, "an envelope of the ingest domain with another payload type is not an ingest request")
+	}
+}
